@@ -22,7 +22,8 @@ from vlib.ob import TIER, HarnessDefect, cover, fail, obligation, tiered
 from vlib.stubs import plain_error_messages, silence_logging
 
 STUBS = silence_logging() + plain_error_messages()
-M = tiered(2, 3)  # max length of each segment
+M = tiered(2, 3)  # max number of positional-only and of keyword-only parameters
+MA = tiered(3, 4)  # max number of positional-or-keyword parameters (a default-alignment bug needs more of them than defaults)
 
 
 def _loc(node, l=1):
@@ -98,10 +99,10 @@ def _render(spec, is_async, has_ret, in_class):
 
 def _sig_cases():
     out = []
-    ctxs = tiered(((False, False, 0), (False, False, 0b1011011), (True, True, 0b11111111)),
-                  ((False, False, 0), (False, False, 0b1011011), (True, True, 0b11111111), (True, False, 0b0100100), (False, True, 0b1011011)))
+    ctxs = tiered(((False, False, 0), (False, False, 0b101101101101), (True, True, 0xFFFF)),
+                  ((False, False, 0), (False, False, 0b101101101101), (True, True, 0xFFFF), (True, False, 0b010010010010), (False, True, 0b101101101101)))
     for npo in range(M + 1):
-        for na in range(M + 1):
+        for na in range(MA + 1):
             cases = []
             for nd in range(npo + na + 1):
                 for nk in range(M + 1):
@@ -118,24 +119,24 @@ def _sig_cases():
 
 @obligation(
     pid="C02", name="signature", timeout=tiered(280, 2400), shards=_sig_cases,
-    pre=lambda npo, na, nd, nk, kmask, amask, vararg, kwarg, is_async, has_ret, in_class, m0, m1, m2, m3, m4, m5, q0, q1, q2: True,
+    pre=lambda npo, na, nd, nk, kmask, amask, vararg, kwarg, is_async, has_ret, in_class, m0, m1, m2, m3, m4, m5, m6, q0, q1, q2: True,
     drives=[get_parameters, Visitor.handle_function, Parameter.required.fget],
-    bounds={"positional-only": f"0..{M}", "positional-or-keyword": f"0..{M}", "defaults": "0..(posonly+args), spanning the / boundary", "keyword-only": f"0..{M} with every kw_defaults None-mask",
+    bounds={"positional-only": f"0..{M}", "positional-or-keyword": f"0..{MA}", "defaults": "0..(posonly+args), spanning the / boundary", "keyword-only": f"0..{M} with every kw_defaults None-mask",
             "*args/**kwargs": "present or not", "annotations": "none / a mixed subset / all parameters annotated", "return annotation": "present iff some annotation", "context": "module-level def / async method in a class (thorough: more mixes)"},
-    value_symbolic=["the identity of every default expression (m0..m5 for positional defaults, q0..q2 for keyword-only defaults: unconstrained ints carried by the ast.Constant nodes) - which default lands on which parameter is decided for all values at once"],
+    value_symbolic=["the identity of every default expression (m0..m6 for positional defaults, q0..q2 for keyword-only defaults: unconstrained ints carried by the ast.Constant nodes) - which default lands on which parameter is decided for all values at once"],
     selectors=["all segment lengths, number of defaults, kw_defaults mask, variadic presence, annotation mask, context: full cross product bound by the driver, one symbolic analysis each"],
     stubs=STUBS + ["hand-built ast.arguments instead of compile(); validated against exec+inspect.signature and griffe.visit of the rendering"],
     must_cover=["default-spans-posonly-boundary", "kwonly-without-default-after-default"],
-    grid=lambda seed: [dict(npo=a, na=b, nd=c, nk=2, kmask=k, amask=5, vararg=v, kwarg=not v, is_async=False, has_ret=True, in_class=False, m0=100, m1=101, m2=102, m3=103, m4=104, m5=105, q0=200, q1=201, q2=202)
+    grid=lambda seed: [dict(npo=a, na=b, nd=c, nk=2, kmask=k, amask=5, vararg=v, kwarg=not v, is_async=False, has_ret=True, in_class=False, m0=100, m1=101, m2=102, m3=103, m4=104, m5=105, m6=106, q0=200, q1=201, q2=202)
                        for a in (0, 1, 2) for b in (0, 2) for c in range(0, a + b + 1) for k in (0, 1, 2) for v in (False, True)],
     replay=lambda **kw: _sig_replay(**kw),
 )
 def signature(npo: int, na: int, nd: int, nk: int, kmask: int, amask: int, vararg: bool, kwarg: bool, is_async: bool, has_ret: bool, in_class: bool,
-              m0: int, m1: int, m2: int, m3: int, m4: int, m5: int, q0: int, q1: int, q2: int) -> bool:
+              m0: int, m1: int, m2: int, m3: int, m4: int, m5: int, m6: int, q0: int, q1: int, q2: int) -> bool:
     """Names, order, kinds, which parameters have defaults (and which default lands on which), annotations, return annotation == the language rule."""
     want = _spec(npo, na, nd, nk, kmask, amask, vararg, kwarg)
     # (1) get_parameters with symbolic default identities
-    ms, qs = [m0, m1, m2, m3, m4, m5], [q0, q1, q2]
+    ms, qs = [m0, m1, m2, m3, m4, m5, m6], [q0, q1, q2]
     node = _arguments(npo, na, nd, nk, kmask, amask, vararg, kwarg)
     for i, d in enumerate(node.defaults):
         d.value = ms[i]
